@@ -22,7 +22,7 @@ def main():
     ok = ok and okc
     # engine L: compile the Lean lemma files once and record a stamp (source hash) under /verif/build
     from . import lemmas_t
-    for pid in ('C01', 'C18', 'C11'):
+    for pid in ('C01', 'C18', 'C11', 'C14'):
         for v in lemmas_t.lean_verdicts(pid, 'thorough'):
             print(v)
             ok = ok and v.status == 'discharged'
